@@ -225,6 +225,12 @@ impl BasePattern {
         None
     }
 
+    /// Path of the given `identifier` inside the pattern, as computed by [`BasePattern::get`].
+    #[cfg(feature = "verif")]
+    pub(crate) fn verif_get_path(&self, identifier: &Identifier) -> Option<Vec<bool>> {
+        self.get(identifier).map(|selector| selector.verif_path().to_vec())
+    }
+
     /// Check if `self` subsumes the `other` pattern.
     ///
     /// ## Subsumption
